@@ -15,9 +15,9 @@ from soundevent.geometry import rasterize
 from soundevent.geometry.conversion import geometry_to_shapely
 
 
-def template(nt, nf, dt, df, order, content):
-    t = np.arange(nt) * dt + 1.0
-    f = np.arange(nf) * df + 100.0
+def template(nt, nf, dt, df, order, content, t0=1.0, f0=100.0):
+    t = np.arange(nt) * dt + t0
+    f = np.arange(nf) * df + f0
     shape = (nt, nf) if order == ("time", "frequency") else (nf, nt)
     vals = np.full(shape, content, dtype=float)
     return xr.DataArray(vals, dims=order, coords={"time": t, "frequency": f})
@@ -43,9 +43,10 @@ def reference(geoms, values, arr, fill, all_touched):
 def main():
     s = StandIn("raster_templates", "templates 1..8 x 1..8 bins (sampled), both dimension orders, spacings {1,.1,1/3}; boxes on/off bin edges, polygons; <=3 geometries")
     sizes = [(1, 1), (1, 4), (3, 3), (5, 2), (2, 7), (8, 8), (6, 4)] if s.tier == "quick" else list(itertools.product(range(1, 9), repeat=2))
-    for (nt, nf), (dt, df), order in itertools.product(sizes, [(1.0, 10.0), (0.1, 1.0), (1 / 3, 100 / 3)], [("frequency", "time"), ("time", "frequency")]):
-        arr = template(nt, nf, dt, df, order, content=s.rng.choice([0.0, 5.0]))
-        t0, f0 = 1.0, 100.0
+    # the last two grids make time and frequency coordinates share numeric values that fall into different bins
+    grids = [(1.0, 10.0, 1.0, 100.0), (0.1, 1.0, 1.0, 100.0), (1 / 3, 100 / 3, 1.0, 100.0), (1.0, 2.0, 2.0, 0.0), (2.0, 1.0, 0.0, 3.0)]
+    for (nt, nf), (dt, df, t0, f0), order in itertools.product(sizes, grids, [("frequency", "time"), ("time", "frequency")]):
+        arr = template(nt, nf, dt, df, order, content=s.rng.choice([0.0, 5.0]), t0=t0, f0=f0)
         boxes = [data.BoundingBox(coordinates=[t0 + a * dt, f0 + b * df, t0 + c * dt, f0 + d * df])
                  for a, b, c, d in ((0, 0, nt - 1, nf - 1), (0.5, 0.5, max(0.6, nt - 1.5), max(0.6, nf - 1.5)), (0, 0, 0.4, 0.4), (1, 0, min(nt - 1, 2), min(nf - 1, 1)))
                  if a <= c and b <= d and c <= nt - 1 and d <= nf - 1 and nt > 0]
@@ -53,7 +54,7 @@ def main():
         cases = [([b], 1) for b in boxes] + [(poly, 2)] * bool(poly) + ([(boxes[:3], [1, 2, 3])] if len(boxes) >= 3 else [])
         for geoms, values in cases:
             for fill, at in ((0, False), (-1, False), (0, True)):
-                key = f"{nt}x{nf}:{dt}:{order[0]}:{[g.coordinates for g in geoms]}:{values}:{fill}:{at}"
+                key = f"{nt}x{nf}:{dt}:{t0}:{order[0]}:{[g.coordinates for g in geoms]}:{values}:{fill}:{at}"
                 s.case(None, key, sample=dict(shape=(nt, nf), order=order, geometries=[g.coordinates for g in geoms], values=values))
                 try:
                     out = rasterize(geoms, arr, values=values, fill=fill, all_touched=at)
